@@ -202,8 +202,43 @@ def run(names, seeds=(None,)):
         json.dump(results, open(res_path, "w"), indent=1, sort_keys=True)
 
 
-if __name__ == "__main__":
+if __name__ == "__main__" and len(sys.argv) > 1 and sys.argv[1] in ("build", "run"):
     if sys.argv[1] == "build":
         build()
     else:
         run(sys.argv[2:])
+
+
+def run_patch(diff_path, prop, seeds=("",), tier="quick"):
+    """Apply an arbitrary patch to a scratch copy and run one property's check on it."""
+    d = scratch()
+    out = []
+    try:
+        p = subprocess.run(["patch", "-p1", "-s", "-d", d, "-i", diff_path], capture_output=True, text=True)
+        if p.returncode != 0:
+            return [{"error": "patch failed: " + p.stdout + p.stderr}]
+        passed, failed, tail = run_tests(d)
+        for sd in seeds:
+            env = dict(os.environ)
+            env["VERIF_REPO"] = d
+            if sd != "":
+                env["VERIF_SEED"] = str(sd)
+            t0 = time.time()
+            r = subprocess.run([os.path.join(VERIF, "run_check.sh"), prop, tier], env=env, capture_output=True, text=True)
+            viol = [l for l in r.stdout.splitlines() if l.startswith("VIOLATION")]
+            detail = [l for l in r.stdout.splitlines() if l.startswith("  V") or l.startswith("  detect") or l.startswith("  own")]
+            out.append({"seed": sd or "default", "tests_passed": passed, "tests_failed": failed, "check_exit": r.returncode,
+                        "violations": len(viol), "first": detail[0][:400] if detail else "", "wall_s": round(time.time() - t0, 1),
+                        "tail": r.stdout[-600:] if r.returncode not in (0, 1) else ""})
+            for l in viol:
+                mm = re.search(r"replay=(\S+)", l)
+                if mm and os.path.exists(mm.group(1)):
+                    os.remove(mm.group(1))
+    finally:
+        shutil.rmtree(d, ignore_errors=True)
+    return out
+
+
+if __name__ == "__main__" and len(sys.argv) > 1 and sys.argv[1] == "runpatch":
+    res = run_patch(sys.argv[2], sys.argv[3], seeds=tuple(sys.argv[4:]) or ("",))
+    print(json.dumps(res, indent=1))
